@@ -430,6 +430,18 @@ def run(h):
             for a in nums:
                 for b in nums:
                     corpus.append(('%s %s %s' % (a, op, b), 'ill-typed-operator'))
+    if h.shard == 0:
+        # binders with several clauses, and every variant with ONE '$' dropped (a clause without '$' must be a
+        # syntax error, not something that parses and then escapes at evaluation)
+        multi = ['let $x := 1, $y := 2 return $x + $y', 'let $x := 1, $y := $x + 1, $z := 3 return ($x, $y, $z)',
+                 'for $a in (1, 2), $b in (3, 4) return $a * $b', 'some $a in (1, 2), $b in (2, 3) satisfies $a = $b',
+                 'every $a in (1, 2), $b in (2, 3) satisfies $a lt $b', 'for $a at $i in (1, 2) return $i',
+                 'function($a, $b) { $a + $b }(1, 2)', 'let $f := function($a as xs:integer, $b) as item()* { $a } return $f(1, 2)']
+        for src in multi + [x for x in SEEDS if x.count('$') >= 2][:60]:
+            corpus.append((src, 'seed'))
+            for i, ch in enumerate(src):
+                if ch == '$':
+                    corpus.append((src[:i] + src[i + 1:], 'mutation'))
     dm = domain_matrix()
     for e in (dm[h.shard::h.nshards] if h.nshards > 1 else dm):
         corpus.append((e, 'domain-call'))
